@@ -223,7 +223,8 @@ pub fn run(tier: Tier, replay: Option<Value>) -> ! {
         let seqs = enumerate::sequences(LEAVES.len(), tier.pick(2, 3));
         for s in seqs.iter().filter(|s| !s.is_empty()) {
             // thorough: length-3 sequences start with a fault leaf (every pair is already covered)
-            if s.len() == 3 && !LEAVES[s[0]].0.starts_with("F:") {
+            // … and end with one: a fault, anything, a fault
+            if s.len() == 3 && !(LEAVES[s[0]].0.starts_with("F:") && LEAVES[s[2]].0.starts_with("F:")) {
                 continue;
             }
             for (ci, ctx) in CONTEXTS.iter().enumerate() {
@@ -232,7 +233,7 @@ pub fn run(tier: Tier, replay: Option<Value>) -> ! {
                 if tier == Tier::Quick && ci >= 2 && s.len() == 2 && !LEAVES[s[0]].0.starts_with("F:") {
                     continue;
                 }
-                if s.len() == 3 && ci >= 2 {
+                if s.len() == 3 && ci >= 1 {
                     continue;
                 }
                 // pairs outside the top-level context: one run of 6 iterations (a leak is linear in N)
@@ -249,13 +250,13 @@ pub fn run(tier: Tier, replay: Option<Value>) -> ! {
                     if n == 500 && s.len() > 1 {
                         continue;
                     }
-                    if s.len() == 3 && n != 50 {
+                    if s.len() == 3 && n != 2 {
                         continue;
                     }
                     let seq: String = s.iter().map(|i| LEAVES[*i].1).collect::<Vec<_>>().join("\n");
                     let mut tags: Vec<String> = s.iter().map(|i| format!("leaf:{}", LEAVES[*i].0)).collect();
                     tags.push(format!("ctx:{}", ctx.0));
-                    cases.push((seq, ci, tags, n));
+                    cases.push((seq, ci, tags, if s.len() == 3 { 10 } else { n }));
                 }
             }
         }
